@@ -65,7 +65,7 @@ func verifID(p *pp) uint64 {
 
 func verifPool(ev string, p *pp) {
 	if ev == "get" {
-		verifMode(p, "G", -1, -1) // a printer starts a new life: pristine mode and override
+		verifMode(p, "G") // a printer starts a new life: pristine mode and override
 	}
 	sink := VerifPoolSink
 	if sink == nil {
@@ -87,9 +87,9 @@ func verifPool(ev string, p *pp) {
 }
 
 // VerifModeEvent: one event per change of the printer's output mode / override. Ev is the function:
-// "U" startUnsafe, "R" startPreRedactable, "SO" startSafeOverride, "UO" startUnsafeOverride (M0/O0: mode
-// and override before, M1/O1: after), "X" restorer.restore (M0/O0: what it restores to, M1/O1: the state
-// after), "D" entry of doPrint/doPrintf/doPrintln after its mode switch, "A+" / "A-" entry and exit of
+// "U" startUnsafe, "R" startPreRedactable, "SO" startSafeOverride, "UO" startUnsafeOverride, "X"
+// restorer.restore (M1/O1: mode and override after the step; the state before is that after the printer's
+// previous event), "D" entry of doPrint/doPrintf/doPrintln after its mode switch, "A+" / "A-" entry and exit of
 // printArg, "N" a nested printer made by SafePrinter.Print/Printf (Pid: the nested one, Par: its parent;
 // M0/O0 the parent's state, M1/O1 the nested printer's), "G" a printer handed out by newPrinter.
 type VerifModeEvent struct {
@@ -111,10 +111,12 @@ var VerifModeSink func(ev VerifModeEvent)
 
 var verifModeSeq int64
 
-func verifMode(p *pp, ev string, m0, o0 int) {
+// verifMode reports the state AFTER the step; the hooks read nothing but the printer itself, so that a change
+// to the hooked functions cannot stop the tagged build from compiling.
+func verifMode(p *pp, ev string) {
 	if sink := VerifModeSink; sink != nil {
 		sink(VerifModeEvent{Seq: atomic.AddInt64(&verifModeSeq, 1), Ev: ev, Pid: verifID(p),
-			M0: m0, O0: o0, M1: int(p.buf.GetMode()), O1: int(p.override), Buf: uintptr(unsafe.Pointer(&p.buf.Buffer))})
+			M0: -1, O0: -1, M1: int(p.buf.GetMode()), O1: int(p.override), Buf: uintptr(unsafe.Pointer(&p.buf.Buffer))})
 	}
 }
 
@@ -122,8 +124,8 @@ func verifArg(p *pp) func() {
 	if VerifModeSink == nil {
 		return func() {}
 	}
-	verifMode(p, "A+", -1, -1)
-	return func() { verifMode(p, "A-", -1, -1) }
+	verifMode(p, "A+")
+	return func() { verifMode(p, "A-") }
 }
 
 func verifNested(p, np *pp) {
